@@ -4,6 +4,7 @@ mod drip;
 mod dripcase;
 mod engine;
 mod gens;
+mod graphgen;
 mod osfault;
 mod props;
 mod refmodel;
@@ -24,6 +25,9 @@ macro_rules! dispatch {
             "C02" => $f(&props::c02::C02, $($arg),*),
             "C03" => $f(&props::c03::C03, $($arg),*),
             "C04" => $f(&props::c04::C04, $($arg),*),
+            "C05" => $f(&props::c05::C05, $($arg),*),
+            "C06" => $f(&props::c06::C06, $($arg),*),
+            "C07" => $f(&props::c07::C07, $($arg),*),
             "C08" => $f(&props::c08::C08, $($arg),*),
             "C09" => $f(&props::c09::C09, $($arg),*),
             "C10" => $f(&props::c10::C10, $($arg),*),
